@@ -450,6 +450,70 @@ Proof.
     rewrite Hnone in Hall. discriminate.
 Qed.
 
+Lemma bound_none_later now ts d t : (now <= ts)%Z -> bound_ip now d t = None -> bound_ip ts d t = None.
+Proof.
+  intros Hle Hn. unfold bound_ip in *. destruct (find_live ts (KDuid d) t 0) as [p|] eqn:F; [|reflexivity]. exfalso.
+  apply find_live_some in F as (_ & e & Hne & Hl & Hk & _). rewrite Nat.sub_0_r in Hne.
+  destruct (find_live now (KDuid d) t 0) as [q|] eqn:F2.
+  - apply find_live_some in F2 as (_ & e2 & Hne2 & _). rewrite Nat.sub_0_r in Hne2. rewrite Hne2 in Hn. discriminate.
+  - rewrite find_live_none_iff in F2. specialize (F2 p e (conj Hne (live_mono _ _ _ Hle Hl))). congruence.
+Qed.
+
+(* ---------- C05: an eligible suggestion is honoured ---------- *)
+Lemma c05_suggest_scan_with c : forall h now prev, snap_times now h -> c05_suggest c prev true h = scan_with (c05_suggest_round c) prev h.
+Proof.
+  induction h as [|r h IH]; intros now prev Hs; [reflexivity|]. destruct Hs as (_ & _ & _ & Hhs & _ & Hs).
+  cbn [c05_suggest scan_with negb orb]. rewrite Hhs. erewrite IH; eauto.
+Qed.
+
+Lemma accepted_round_c05_suggest c prev tqp t r t' : cfg_wire_ok c -> cfg_srv_ok c -> round_ctx c prev tqp t r t' -> c05_suggest_round c prev r = true.
+Proof.
+  intros Hcw Hcs X. unfold c05_suggest_round.
+  destruct (parse_in (r_pkt r)) as [i|] eqn:Epi; [|reflexivity]. destruct (r_outs r) as [|f0 [|? ?]] eqn:Ho0; try reflexivity.
+  destruct (o_reqip (pi_opt i)) as [x|] eqn:Ereq; [|reflexivity]. destruct (parse_out f0) as [p0|] eqn:Epo; [|reflexivity].
+  match goal with |- (if ?b then _ else _) = true => destruct b eqn:Econd; [|reflexivity] end.
+  rewrite !andb_true_iff in Econd.
+  destruct Econd as (((((((((((Hmt & Hdst) & Hsid) & Hnself) & Hres) & Hnb) & Hdyn) & Hind) & Hv) & Hnt) & Hnf) & Hty).
+  unfold parse_in in Epi. destruct (decode_chain (r_pkt r)) as [[[src dst] m]|] eqn:Hdc; [|discriminate]. injection Epi as <-.
+  cbn [pi_msg pi_opt pi_dst] in *. apply N.eqb_eq in Hmt, Hdst, Hty. subst dst. set (o := decode_options (d_options m)) in *.
+  apply negb_true_iff in Hnt, Hnf, Hdyn.
+  change (get_duid c (d_chaddr m) (o_cid o)) with (rc_duid c m) in Hnb.
+  destruct (rc_inv _ _ _ _ _ _ X) as [[U S] _].
+  rewrite (snap_bound_eq prev tqp t (r_t r) (rc_duid c m) (rc_prev _ _ _ _ _ _ X) U (rc_now _ _ _ _ _ _ X)) in Hnb.
+  assert (Eb : bound_ip (r_t r) (rc_duid c m) t = None) by (destruct (bound_ip (r_t r) (rc_duid c m) t); [discriminate Hnb|reflexivity]).
+  assert (Hkind : msg_kind c m o = KDiscover).
+  { unfold msg_kind. rewrite bytes_eqb_sym'. apply negb_true_iff in Hnself. rewrite Hnself. unfold gf_dhcpmsg_MsgTypeDiscover. rewrite Hmt. reflexivity. }
+  pose proof (rc_wf _ _ _ _ _ _ X) as Hw.
+  destruct (accepted_round_cases c t r t' (rc_acc _ _ _ _ _ _ X)) as [Hcase _].
+  destruct Hcase as [Hdc' Ho ?|? ? ? Hdc' Hk' Ho ?|? ? ? Hdc' Hk' Hdrop Ho ?|? ? ? ts Hdc' o' Hk' ? Hs' Hts Hov Ho ?|src' dst' m' ts y f Hdc' o' tl Hk' Hd' Hs' Ho Hy Hfr Ht Hdl Hts Hle Hov Hh
+                    |? ? ? Hdc' o' Hk' ? Ho ?|? ? ? ? f Hdc' o' Hk' ? ? ? Ho ? ? ? ?
+                    |? ? ? ? f Hdc' o' Hk' ? ? ? ? ? Ho ? ? ?|? ? ? ? f ? Hdc' o' Hk' ? ? ? ? ? Ho ? ? ? ?];
+    rewrite Hdc in Hdc'; try discriminate Hdc'; injection Hdc' as <- <- <-;
+    try (rewrite Ho0 in Ho; discriminate Ho);
+    try (exfalso; match type of Hk' with _ = ?K => assert (Hx' : KDiscover = K) by (rewrite <- Hkind; exact Hk') end; discriminate Hx').
+  (* the OFFER *)
+  rewrite Ho0 in Ho. injection Ho as <-.
+  pose proof (hold_to_uip _ _ _ _ _ _ _ Hh) as Eu. destruct (to_uip_bound _ _ _ Eu) as [_ Hbd].
+  assert (Hyb : y < 4294967296) by (destruct Hcw as (_ & Hc2 & _); lia).
+  destruct (lease_frame_view c (r_pkt r) src bcast_ip m f0 2 y Hcw Hw Hdc Hyb (or_introl eq_refl) Hfr) as (p & Hpo & _ & Hyi & _).
+  rewrite Epo in Hpo. injection Hpo as <-. rewrite Hyi. apply N.eqb_eq.
+  assert (Htsr : (r_t r <= ts)%Z) by (destruct Hts; subst; lia).
+  assert (Ebts : bound_ip ts (rc_duid c m) t = None) by (eapply bound_none_later; eauto).
+  subst o'. fold o in Hov. unfold offer_valid in Hov. rewrite Ebts, Hdyn, Ereq in Hov.
+  (* the suggestion is eligible: it is tried first *)
+  assert (Hux : to_uip (c_db c) (Some x) = Some x).
+  { unfold to_uip. destruct (cs_dyn c Hcs Hdyn) as [A B]. unfold in_dyn in Hind. replace ((x <? net_from (c_db c)) || (net_to (c_db c) <? x)) with false by lia. reflexivity. }
+  rewrite Hux in Hov.
+  assert (Hnone : find_live ts (KIp x) t 0 = None).
+  { eapply (snap_taken_complete prev tqp t ts x (rc_prev _ _ _ _ _ _ X)); [pose proof (rc_now _ _ _ _ _ _ X); lia|].
+    unfold snap_taken in *. apply not_true_iff_false. intros Hex. apply not_true_iff_false in Hnt. apply Hnt.
+    apply existsb_exists in Hex as (s & Hs & Hc). apply existsb_exists. exists s. split; [exact Hs|].
+    apply andb_true_iff in Hc as [Hc1 Hc2]. rewrite Hc1. cbn [andb]. destruct (sn_perm s); [reflexivity|]. cbn [orb] in *. lia. }
+  assert (Hfree : probe_free (r_arp r) (d_chaddr m) x = true).
+  { destruct (probe_free (r_arp r) (d_chaddr m) x) eqn:E; [reflexivity|]. rewrite (not_free_foreign r (d_chaddr m) x E) in Hnf. discriminate. }
+  unfold t_eligible in Hov. rewrite Hnone, Hind, Hv, Hfree in Hov. cbn [is_none andb] in Hov. apply N.eqb_eq in Hov. exact Hov.
+Qed.
+
 (* ---------- C05 on the wire ---------- *)
 Lemma scan_with_and Q1 Q2 : forall h prev, scan_with (fun p r => Q1 p r && Q2 p r) prev h = scan_with Q1 prev h && scan_with Q2 prev h.
 Proof.
@@ -469,8 +533,10 @@ Proof.
   assert (Hgen : forall Q, (forall prev tqp t r t', round_ctx c prev tqp t r t' -> Q prev r = true) ->
                  scan_with Q (snap_of 0%Z (initial_table c)) h = true).
   { intros Q HQ. eapply (accepted_history_snap_rounds c Q Hdur); eauto; [apply initial_snap_is|apply initial_TInv; exact Hcs]. }
-  rewrite <- (scan_with_const ack_reserved h (snap_of 0%Z (initial_table c))), c05_silence_scan_with, c05_monotone_scan_with.
-  rewrite (Hgen (fun _ r => ack_reserved r)), (Hgen (c05_silence_round c)), (Hgen c05_mono_round); [reflexivity| | |].
+  rewrite <- (scan_with_const ack_reserved h (snap_of 0%Z (initial_table c))), c05_silence_scan_with, c05_monotone_scan_with,
+    (c05_suggest_scan_with c h 0%Z _ Hs).
+  rewrite (Hgen (fun _ r => ack_reserved r)), (Hgen (c05_silence_round c)), (Hgen c05_mono_round), (Hgen (c05_suggest_round c)); [reflexivity| | | |].
+  - intros; eapply accepted_round_c05_suggest; eauto.
   - intros; eapply accepted_round_c05_mono; eauto.
   - intros; eapply accepted_round_c05_silence; eauto.
   - intros; eapply accepted_round_ack_reserved; eauto.
@@ -515,15 +581,6 @@ Qed.
 
 Lemma opt_eqb_neq a v : a <> Some v -> opt_eqb a (Some v) = false.
 Proof. destruct a as [x|]; cbn; [|reflexivity]. intros H. apply N.eqb_neq. intros ->. apply H. reflexivity. Qed.
-
-Lemma bound_none_later now ts d t : (now <= ts)%Z -> bound_ip now d t = None -> bound_ip ts d t = None.
-Proof.
-  intros Hle Hn. unfold bound_ip in *. destruct (find_live ts (KDuid d) t 0) as [p|] eqn:F; [|reflexivity]. exfalso.
-  apply find_live_some in F as (_ & e & Hne & Hl & Hk & _). rewrite Nat.sub_0_r in Hne.
-  destruct (find_live now (KDuid d) t 0) as [q|] eqn:F2.
-  - apply find_live_some in F2 as (_ & e2 & Hne2 & _). rewrite Nat.sub_0_r in Hne2. rewrite Hne2 in Hn. discriminate.
-  - rewrite find_live_none_iff in F2. specialize (F2 p e (conj Hne (live_mono _ _ _ Hle Hl))). congruence.
-Qed.
 
 Lemma deadline_clause c r f : (of_t f <= reply_deadline c r)%Z ->
   (of_t f - r_t r <=? 50000000 + (Z.of_nat (length (dyn_addresses (c_db c))) + 2) * arp_tries * arp_timeout)%Z = true.
